@@ -127,7 +127,7 @@ def build(fb=None):
                     raises={"ValueError": "n_samples < 1"}, ensures="SAMPLES_OK(result, n_samples)", spec={"SAMPLES_OK": ok},
                     doc="n_samples < 1 raises ValueError; otherwise exactly n_samples samples, each the tuple form (bitstring_to_tuple) of an outcome key of non-zero "
                         "probability - the same conversion in both sampling regimes, never the zero-probability padding entry")
-    obs = _simulator_views(fb)
+    obs = _simulator_views(fb) + _convert_obs(fb) + _bin2dec_ob(fb)
     return obs + [vprop.fn_ob("C04", c, {}, setup=setup, fallback=fb, obid="C04.sample_from_wavefunction.contract", desc=c.doc, timeout_ms=60000,
                         extra_stubs=lambda: {"np": NP, "convert_bitstrings_to_tuples": convert_any, "len": lambda x: v_len_hook(x) if isinstance(x, WF) else vrt.v_len(x)})]
 
@@ -184,3 +184,49 @@ def _simulator_views(fb):
                            call=lambda ns, a: ns["BaseWavefunctionSimulator"].get_exact_expectation_values(a["self"], a["circuit"], a["operator"]),
                            extra_stubs=lambda: {"get_expectation_value": lambda o, w, *r, **k: (SObj("Num", EXPV(sym.lift(o), sym.lift(w))) if not r and not k else (_ for _ in ()).throw(sym.Unsupported("extra arguments to get_expectation_value")))}))
     return out
+
+
+def _convert_obs(fb):
+    """the two list converters are the element-wise maps of the per-element converters, for lists of ANY length (this is the contract `sample_from_wavefunction`
+    uses for `convert_bitstrings_to_tuples`)"""
+    U = "orquestra.quantum.utils"
+    T2B = z3.Function("tuple_to_bitstring", Obj, Obj)
+    sym.OBJ_SCHEMAS.setdefault("Bitstr", {})
+    sym.OBJ_SCHEMAS.setdefault("Tup", {})
+    out = []
+    for fname, arg, elem_in, elem_out, fn, inner in (("convert_bitstrings_to_tuples", "bitstrings", "Bitstr", "Tup", B2T, "bitstring_to_tuple"),
+                                                     ("convert_tuples_to_bitstrings", "tuples", "Tup", "Bitstr", T2B, "tuple_to_bitstring")):
+        c = vc.Contract(key=f"{U}:{fname}", params={arg: f"Seq[Obj:{elem_in}]"},
+                        ensures=f"len(result) == len({arg}) and all(result[i] == CONV({arg}[i]) for i in range(len({arg})))",
+                        spec={"CONV": lambda x, fn=fn, elem_out=elem_out: SObj(elem_out, fn(sym.lift(x)))},
+                        doc=f"{fname} = {inner} applied to every element, same length and order (any length)")
+        out.append(vprop.fn_ob("C04", c, {}, fallback=fb, obid=f"C04.{fname}.contract", desc=c.doc,
+                               extra_stubs=lambda fn=fn, elem_out=elem_out, inner=inner: {inner: (lambda x: SObj(elem_out, fn(sym.lift(x))))}))
+    return out
+
+
+def _bin2dec_ob(fb):
+    """`bin2dec(x)` = sum over positions q of x[q] * 2^(n-1-q): element 0 is the MOST significant digit, for vectors of ANY length (loop invariant;
+    2^i is the uninterpreted pow2 with its recurrence instantiated at the loop index)"""
+    U = "orquestra.quantum.utils"
+
+    def value(x, k=None):
+        """sum_{j<k} 2^j * x[n-1-j]  (k = n: the whole vector)"""
+        s = SSeq.of(x)
+        n = sym.lift(s.length())
+        kk = n if k is None else sym.lift(k)
+        j = z3.Int("j!b2d")
+        c = sym.cur()
+        c.nofork += 1
+        try:
+            body = sym._POW2(j) * sym.lift(s.get(SInt(n - 1 - j)))
+        finally:
+            c.nofork -= 1
+        return sym.ssum_range(z3.Lambda([j], body), I, 0, kk)
+
+    def pow2(i):
+        return sym.pow2(i)
+    c = vc.Contract(key=U + ":bin2dec", params={"x": "Seq[Int]"}, result="Int", ensures="result == VALUE(x)", spec={"VALUE": value, "P2": pow2},
+                    loops={"for#0": {"invariant": "dec == VALUE(x, k) and coeff == P2(k)"}},
+                    doc="bin2dec(x) = sum_q x[q] 2^(n-1-q): position 0 is the most significant binary digit (any length)")
+    return [vprop.fn_ob("C04", c, {}, fallback=fb, obid="C04.bin2dec.contract", desc=c.doc, timeout_ms=30000)]
